@@ -49,6 +49,13 @@ theorem CompiledList.mono {σ σ' : Store} (h : Ext σ σ') : ∀ {es : List Exp
   | _, _, .cons ha has => .cons (Compiled.mono h ha) (CompiledList.mono h has)
 end
 
+/-- the variable names of `σ` keep their cells in `σ'` -/
+def VExt (σ σ' : Store) : Prop := ∀ x i, σ.vcellOf x = some i → σ'.vcellOf x = some i
+
+theorem VExt.refl (σ : Store) : VExt σ σ := fun _ _ h => h
+theorem VExt.trans {σ₁ σ₂ σ₃ : Store} (h₁ : VExt σ₁ σ₂) (h₂ : VExt σ₂ σ₃) : VExt σ₁ σ₃ :=
+  fun x i h => h₂ x i (h₁ x i h)
+
 theorem Ext.refl (σ : Store) : Ext σ σ := fun _ _ h => h
 theorem Ext.trans {σ₁ σ₂ σ₃ : Store} (h₁ : Ext σ₁ σ₂) (h₂ : Ext σ₂ σ₃) : Ext σ₁ σ₃ :=
   fun f i h => h₂ f i (h₁ f i h)
@@ -148,6 +155,82 @@ theorem evalAux_compiled {σ : Store} {ev₁ : Env → Code → Out} {ev₂ : En
     simp only [evalAux, h env _ _ hc]
     split <;> first | rfl | exact ih _
 
+/-! ## the body of a definition: compiled, or a pointer to the cell of a global variable -/
+
+/-- `cb` is a code object for the body of `lam`: a code object for the body form, or — when the body
+    is a bare symbol that is not a variable of the function — a pointer to *the* cell of that name -/
+inductive BodyOK (σ : Store) (lam : Lam) : Code → Prop where
+  | plain {cb : Code} : Compiled σ lam.body cb → BodyOK σ lam cb
+  | gref {x : String} {i : Nat} : lam.body = .var x → x ∉ locals lam → σ.vcellOf x = some i →
+      BodyOK σ lam (.gref i x)
+
+theorem BodyOK.mono {σ σ' : Store} (h : Ext σ σ') (hv : VExt σ σ') {lam : Lam} {cb : Code} :
+    BodyOK σ lam cb → BodyOK σ' lam cb
+  | .plain hc => .plain (hc.mono h)
+  | .gref hb hl hx => .gref hb hl (hv _ _ hx)
+
+/-! ### a variable that is not a local of the function is not bound by the call -/
+
+theorem lookup_none_of_not_mem {β : Type} {x : String} : ∀ {l : List (String × β)}, x ∉ l.map (·.1) → l.lookup x = none
+  | [], _ => rfl
+  | (y, b) :: l, h => by
+      simp only [List.map_cons, List.mem_cons, not_or] at h
+      have : (x == y) = false := by simpa using h.1
+      simp only [List.lookup_cons, this]
+      exact lookup_none_of_not_mem h.2
+
+theorem bindKeys_keys (ps : List (String × Val)) : ∀ ks : List (String × Val), (bindKeys ps ks).map (·.1) = ks.map (·.1)
+  | [] => rfl
+  | (k, d) :: ks => by simp only [bindKeys, List.map_cons, bindKeys_keys ps ks]
+
+theorem bindOpt_keys : ∀ (os : List (String × Val)) (vs : List Val), (bindOpt os vs).1.map (·.1) = os.map (·.1)
+  | [], _ => rfl
+  | (x, d) :: os, [] => by simp only [bindOpt, List.map_cons, bindOpt_keys os []]
+  | (x, d) :: os, v :: vs => by simp only [bindOpt, List.map_cons, bindOpt_keys os vs]
+
+theorem zip_lookup_none {x : String} : ∀ (req : List String) (vs : List Val), x ∉ req → (req.zip vs).lookup x = none
+  | [], _, _ => by simp [List.lookup]
+  | _ :: _, [], _ => by simp [List.lookup]
+  | y :: req, v :: vs, h => by
+      simp only [List.mem_cons, not_or] at h
+      have : (x == y) = false := by simpa using h.1
+      simp only [List.zip_cons_cons, List.lookup_cons, this]
+      exact zip_lookup_none req vs h.2
+
+theorem bindArgs_lookup_none {sig : Sig} {vs : List Val} {env₀ : Env} {x : String}
+    (h : bindArgs sig vs = some env₀) (hr : x ∉ sig.req) (ho : x ∉ sig.opt.map (·.1)) (hk : x ∉ sig.key.map (·.1)) :
+    env₀.lookup x = none := by
+  unfold bindArgs at h
+  split at h
+  · cases h
+  · simp only at h
+    split at h
+    · cases h
+    · split at h
+      · cases h
+      · simp only [Option.some.injEq] at h
+        subst h
+        simp only [List.lookup_append]
+        rw [lookup_none_of_not_mem (by rw [bindKeys_keys]; exact hk),
+          lookup_none_of_not_mem (by rw [bindOpt_keys]; exact ho), zip_lookup_none _ _ hr]
+        rfl
+
+theorem evalAux_lookup_none {α : Type} {ev : Env → α → Out} {x : String} :
+    ∀ (as : List (String × α)) (env env₁ : Env), evalAux ev env as = .ok env₁ → env.lookup x = none →
+      x ∉ as.map (·.1) → env₁.lookup x = none
+  | [], env, env₁, h, he, _ => by
+      simp only [evalAux, Except.ok.injEq] at h
+      subst h; exact he
+  | (y, a) :: rest, env, env₁, h, he, hn => by
+      simp only [List.map_cons, List.mem_cons, not_or] at hn
+      simp only [evalAux] at h
+      split at h
+      · next v _ =>
+        refine evalAux_lookup_none rest _ env₁ h ?_ hn.2
+        have : (x == y) = false := by simpa using hn.1
+        simp only [List.lookup_cons, this]; exact he
+      · cases h
+
 /-! ## the invariant between the function table and the store -/
 
 structure WF (σ : Store) : Prop where
@@ -159,7 +242,7 @@ structure WF (σ : Store) : Prop where
 def CellMatches (σ : Store) (Φ : FunTable) (f : String) (i : Nat) : Prop :=
   match Φ.lookup f with
   | some lam => ∃ caux cb, σ.cells[i]? = some (some ⟨lam.sig, caux, cb, lam.env⟩) ∧
-      CompiledAux σ lam.aux caux ∧ Compiled σ lam.body cb
+      CompiledAux σ lam.aux caux ∧ BodyOK σ lam cb
   | none => σ.cells[i]? = some none
 
 structure Rel (Φ : FunTable) (σ : Store) : Prop where
@@ -167,12 +250,40 @@ structure Rel (Φ : FunTable) (σ : Store) : Prop where
   defined : ∀ f lam, Φ.lookup f = some lam → ∃ i, σ.cellOf f = some i
   cells : ∀ f i, σ.cellOf f = some i → CellMatches σ Φ f i
 
+/-- the invariant between the global variables and the variable cells: one cell per name, the cell
+    holds the value the name has (`none`: the unbound placeholder), unknown names are unbound -/
+structure VRel (G : Env) (σ : Store) : Prop where
+  bound : ∀ x i, σ.vcellOf x = some i → i < σ.vcells.length
+  inj : ∀ x y i, σ.vcellOf x = some i → σ.vcellOf y = some i → x = y
+  vals : ∀ x i, σ.vcellOf x = some i → σ.vcellVal i = G.lookup x
+  undefd : ∀ x, σ.vcellOf x = none → G.lookup x = none
+
+theorem vrel_empty : VRel [] Store.empty := by
+  refine ⟨?_, ?_, ?_, ?_⟩ <;> intros <;> simp_all [Store.vcellOf, Store.empty, List.lookup]
+
+theorem gval_eq {G : Env} {σ : Store} (h : VRel G σ) (x : String) : σ.gval x = G.lookup x := by
+  unfold Store.gval
+  cases hx : σ.vcellOf x with
+  | none => exact (h.undefd x hx).symm
+  | some i => exact h.vals x i hx
+
+/-- a store with the same variable cells stands for the same global variables -/
+theorem VRel.transfer {G : Env} {σ σ' : Store} (h : VRel G σ) (h₁ : σ'.vnames = σ.vnames) (h₂ : σ'.vcells = σ.vcells) :
+    VRel G σ' := by
+  have hc : ∀ x, σ'.vcellOf x = σ.vcellOf x := fun x => by simp [Store.vcellOf, h₁]
+  have hv : ∀ i, σ'.vcellVal i = σ.vcellVal i := fun i => by simp [Store.vcellVal, h₂]
+  refine ⟨?_, ?_, ?_, ?_⟩
+  · intro x i hx; rw [hc] at hx; rw [h₂]; exact h.bound x i hx
+  · intro x y i hx hy; rw [hc] at hx hy; exact h.inj x y i hx hy
+  · intro x i hx; rw [hc] at hx; rw [hv]; exact h.vals x i hx
+  · intro x hx; rw [hc] at hx; exact h.undefd x hx
+
 theorem rel_empty : Rel [] Store.empty := by
   refine ⟨⟨?_, ?_⟩, ?_, ?_⟩ <;> intros <;> simp_all [Store.cellOf, Store.empty, List.lookup]
 
 /-- **Refinement.** Under the invariant, every code object for `e` evaluates like `e`. -/
-theorem evalCode_eq_eval {Φ : FunTable} {σ : Store} (hrel : Rel Φ σ) :
-    ∀ (n : Nat) (env : Env) {e : Expr} {c : Code}, Compiled σ e c → evalCode σ n env c = eval Φ n env e := by
+theorem evalCode_eq_eval {Φ : FunTable} {G : Env} {σ : Store} (hrel : Rel Φ σ) (hvrel : VRel G σ) :
+    ∀ (n : Nat) (env : Env) {e : Expr} {c : Code}, Compiled σ e c → evalCode σ n env c = eval Φ G n env e := by
   intro n
   induction n with
   | zero => intro env e c _; simp [evalCode, eval]
@@ -181,7 +292,7 @@ theorem evalCode_eq_eval {Φ : FunTable} {σ : Store} (hrel : Rel Φ σ) :
     cases hc with
     | const k => simp [evalCode, eval]
     | kw k => simp [evalCode, eval]
-    | var x => simp [evalCode, eval]
+    | var x => simp only [evalCode, eval, gval_eq hvrel]
     | prim op ha hb => simp only [evalCode, eval, ih env ha, ih env hb]
     | ite hc ht he => simp only [evalCode, eval, ih env hc, ih env ht, ih env he]
     | let1 x hv hb =>
@@ -189,7 +300,7 @@ theorem evalCode_eq_eval {Φ : FunTable} {σ : Store} (hrel : Rel Φ σ) :
       split <;> first | rfl | exact ih _ hb
     | @call r f args cargs hr hargs =>
       simp only [evalCode, eval]
-      have hargs' : evalList (fun a => evalCode σ n env a) cargs = evalList (fun a => eval Φ n env a) args :=
+      have hargs' : evalList (fun a => evalCode σ n env a) cargs = evalList (fun a => eval Φ G n env a) args :=
         evalList_compiled (fun e c h => ih env h) hargs
       -- which cell does the call site reach?
       cases htgt : σ.target r (norm f) with
@@ -222,17 +333,32 @@ theorem evalCode_eq_eval {Φ : FunTable} {σ : Store} (hrel : Rel Φ σ) :
           rw [hΦ] at hm
           obtain ⟨caux, cb, hcb, haux, hcomp⟩ := hm
           have haux' : ∀ env₀ : Env, evalAux (fun env' a => evalCode σ n env' a) env₀ caux
-              = evalAux (fun env' a => eval Φ n env' a) env₀ lam.aux :=
+              = evalAux (fun env' a => eval Φ G n env' a) env₀ lam.aux :=
             evalAux_compiled (fun env' e c h => ih env' h) haux
           simp only [hcb, hargs']
           split
           · rfl
           · split
             · rfl
-            · simp only [haux']
+            · next env₀ hbind =>
+              simp only [haux']
               split
               · rfl
-              · exact ih _ hcomp
+              · next env₁ haux₁ =>
+                cases hcomp with
+                | plain hc => exact ih _ hc
+                | @gref x j hb hl hx =>
+                  -- the body is a pointer to the cell of a global variable: no local binding hides it
+                  simp only [locals, List.mem_append, not_or] at hl
+                  have hl₀ : (env₀ ++ lam.env).lookup x = none := by
+                    simp only [List.lookup_append, bindArgs_lookup_none hbind hl.1.1.1.1 hl.1.1.1.2 hl.1.1.2,
+                      lookup_none_of_not_mem hl.2]
+                    rfl
+                  have hl₁ : env₁.lookup x = none := evalAux_lookup_none lam.aux _ env₁ haux₁ hl₀ hl.1.2
+                  rw [hb]
+                  cases n with
+                  | zero => simp [evalCode, eval]
+                  | succ m => simp only [evalCode, eval, hl₁, hvrel.vals x j hx]
 
 /-! ## `declare`, `compile`, `define` preserve the invariant -/
 
@@ -241,6 +367,14 @@ theorem cellOf_declare_self (σ : Store) (f : String) : ∃ i, (declare σ f).ce
   cases h : σ.cellOf f with
   | some i => exact ⟨i, by simp [h]⟩
   | none => exact ⟨σ.cells.length, by simp [Store.cellOf, List.lookup]⟩
+
+theorem declare_vars (σ : Store) (f : String) : (declare σ f).vnames = σ.vnames ∧ (declare σ f).vcells = σ.vcells := by
+  unfold declare
+  split <;> exact ⟨rfl, rfl⟩
+
+theorem declare_vext (σ : Store) (f : String) : VExt σ (declare σ f) := by
+  intro x i h
+  simpa [Store.vcellOf, (declare_vars σ f).1] using h
 
 theorem cellOf_declare_of_ne {σ : Store} {f g : String} (hne : g ≠ f) :
     (declare σ f).cellOf g = σ.cellOf g := by
@@ -272,9 +406,10 @@ theorem declare_rel {Φ : FunTable} {σ : Store} (hrel : Rel Φ σ) (f : String)
     have : declare σ f = σ := by unfold declare; simp [h]
     rw [this]; exact hrel
   | none =>
-    have hd : declare σ f = ⟨(f, σ.cells.length) :: σ.names, σ.cells ++ [none]⟩ := by
+    have hd : declare σ f = { σ with names := (f, σ.cells.length) :: σ.names, cells := σ.cells ++ [none] } := by
       unfold declare; simp [h]
     have hext := declare_ext σ f
+    have hvext := declare_vext σ f
     -- cell of a name in the new store: the new cell for `f`, the old cell otherwise
     have hcase : ∀ g i, (declare σ f).cellOf g = some i →
         (g = f ∧ i = σ.cells.length) ∨ (g ≠ f ∧ σ.cellOf g = some i) := by
@@ -324,7 +459,7 @@ theorem declare_rel {Φ : FunTable} {σ : Store} (hrel : Rel Φ σ) (f : String)
         | some lam =>
           rw [hl] at hm
           obtain ⟨caux, cb, h₁, h₂, h₃⟩ := hm
-          exact ⟨caux, cb, h₁, h₂.mono hext, h₃.mono hext⟩
+          exact ⟨caux, cb, h₁, h₂.mono hext, h₃.mono hext hvext⟩
 
 theorem declareAll_ext (σ : Store) (fs : List String) : Ext σ (declareAll σ fs) := by
   induction fs generalizing σ with
@@ -341,6 +476,25 @@ theorem declareAll_rel {Φ : FunTable} {σ : Store} (hrel : Rel Φ σ) (fs : Lis
     simp only [declareAll, List.foldl_cons]
     exact ih (declare_rel hrel f)
 
+theorem declareAll_vars (σ : Store) (fs : List String) :
+    (declareAll σ fs).vnames = σ.vnames ∧ (declareAll σ fs).vcells = σ.vcells := by
+  induction fs generalizing σ with
+  | nil => exact ⟨rfl, rfl⟩
+  | cons f fs ih =>
+    simp only [declareAll, List.foldl_cons]
+    have h₁ := ih (declare σ f)
+    have h₂ := declare_vars σ f
+    simp only [declareAll] at h₁
+    exact ⟨h₁.1.trans h₂.1, h₁.2.trans h₂.2⟩
+
+theorem compile_vars (σ : Store) (e : Expr) : (compile σ e).2.vnames = σ.vnames ∧ (compile σ e).2.vcells = σ.vcells :=
+  declareAll_vars σ (callees e)
+theorem compile_vext (σ : Store) (e : Expr) : VExt σ (compile σ e).2 := by
+  intro x i h
+  simpa [Store.vcellOf, (compile_vars σ e).1] using h
+theorem compile_vrel {G : Env} {σ : Store} (h : VRel G σ) (e : Expr) : VRel G (compile σ e).2 :=
+  h.transfer (compile_vars σ e).1 (compile_vars σ e).2
+
 theorem compile_ext (σ : Store) (e : Expr) : Ext σ (compile σ e).2 := declareAll_ext σ (callees e)
 theorem compile_rel {Φ : FunTable} {σ : Store} (hrel : Rel Φ σ) (e : Expr) : Rel Φ (compile σ e).2 :=
   declareAll_rel hrel (callees e)
@@ -350,9 +504,10 @@ theorem compile_compiled (σ : Store) (e : Expr) : Compiled (compile σ e).2 e (
 /-- the patch of `Package.DefLambda`: overwrite the cell of `f` -/
 theorem patch_rel {Φ : FunTable} {σ : Store} (hrel : Rel Φ σ) {f : String} {i : Nat}
     (hf : σ.cellOf f = some i) {lam : Lam} {caux : List (String × Code)} {cb : Code}
-    (haux : CompiledAux σ lam.aux caux) (hcb : Compiled σ lam.body cb) :
-    Rel ((f, lam) :: Φ) ⟨σ.names, σ.cells.set i (some ⟨lam.sig, caux, cb, lam.env⟩)⟩ := by
-  have hext : Ext σ ⟨σ.names, σ.cells.set i (some ⟨lam.sig, caux, cb, lam.env⟩)⟩ := fun _ _ h => h
+    (haux : CompiledAux σ lam.aux caux) (hcb : BodyOK σ lam cb) :
+    Rel ((f, lam) :: Φ) { σ with cells := σ.cells.set i (some ⟨lam.sig, caux, cb, lam.env⟩) } := by
+  have hext : Ext σ { σ with cells := σ.cells.set i (some ⟨lam.sig, caux, cb, lam.env⟩) } := fun _ _ h => h
+  have hvext : VExt σ { σ with cells := σ.cells.set i (some ⟨lam.sig, caux, cb, lam.env⟩) } := fun _ _ h => h
   have hi := hrel.wf.bound f i hf
   refine ⟨⟨?_, ?_⟩, ?_, ?_⟩
   · intro g j hg
@@ -372,7 +527,7 @@ theorem patch_rel {Φ : FunTable} {σ : Store} (hrel : Rel Φ σ) {f : String} {
     · subst hgf
       rw [hf] at hg; cases hg
       simp only [List.lookup, beq_self_eq_true]
-      exact ⟨caux, cb, by simp [hi], haux.mono hext, hcb.mono hext⟩
+      exact ⟨caux, cb, by simp [hi], haux.mono hext, hcb.mono hext hvext⟩
     · have hne : (g == f) = false := by simpa using hgf
       have hji : i ≠ j := fun hij => hgf (hrel.wf.inj g f j hg (hij ▸ hf))
       simp only [List.lookup, hne]
@@ -384,29 +539,245 @@ theorem patch_rel {Φ : FunTable} {σ : Store} (hrel : Rel Φ σ) {f : String} {
       | some lam' =>
         rw [hl] at hm
         obtain ⟨caux', cb', h₁, h₂, h₃⟩ := hm
-        exact ⟨caux', cb', h₁, h₂.mono hext, h₃.mono hext⟩
+        exact ⟨caux', cb', h₁, h₂.mono hext, h₃.mono hext hvext⟩
 
-theorem define_ext (σ : Store) (f : String) (lam : Lam) : Ext σ (define σ f lam) := by
-  have h₁ : Ext σ (declare (compile σ lam.body).2 f) := (compile_ext σ lam.body).trans (declare_ext _ f)
-  unfold define
-  simp only
-  split
-  · exact h₁
-  · exact h₁
+/-! ### global variables: `declareVar`, `setVar`, `compileBody` -/
 
-/-- `defun` re-establishes the invariant for the table in which `f` has its new definition -/
-theorem define_rel {Φ : FunTable} {σ : Store} (hrel : Rel Φ σ) (f : String) (lam : Lam) :
-    Rel ((f, lam) :: Φ) (define σ f lam) := by
-  have hr₂ : Rel Φ (declare (compile σ lam.body).2 f) := declare_rel (compile_rel hrel lam.body) f
-  have hc₂ : Compiled (declare (compile σ lam.body).2 f) lam.body (compile σ lam.body).1 :=
-    (compile_compiled σ lam.body).mono (declare_ext _ f)
-  obtain ⟨i, hi⟩ := cellOf_declare_self (compile σ lam.body).2 f
+/-- a store with the same function cells, in which the variable names keep their cells, stands for
+    the same function table -/
+theorem Rel.transfer {Φ : FunTable} {σ σ' : Store} (h : Rel Φ σ) (h₁ : σ'.names = σ.names) (h₂ : σ'.cells = σ.cells)
+    (hv : VExt σ σ') : Rel Φ σ' := by
+  have hc : ∀ f, σ'.cellOf f = σ.cellOf f := fun f => by simp [Store.cellOf, h₁]
+  have hext : Ext σ σ' := fun f i hf => by rw [hc]; exact hf
+  refine ⟨⟨?_, ?_⟩, ?_, ?_⟩
+  · intro f i hf; rw [hc] at hf; rw [h₂]; exact h.wf.bound f i hf
+  · intro f g i hf hg; rw [hc] at hf hg; exact h.wf.inj f g i hf hg
+  · intro f lam hl; rw [hc]; exact h.defined f lam hl
+  · intro f i hf
+    rw [hc] at hf
+    have hm := h.cells f i hf
+    unfold CellMatches at hm ⊢
+    rw [h₂]
+    cases hl : Φ.lookup f with
+    | none => rw [hl] at hm; exact hm
+    | some lam =>
+      rw [hl] at hm
+      obtain ⟨caux, cb, h₁', h₂', h₃'⟩ := hm
+      exact ⟨caux, cb, h₁', h₂'.mono hext, h₃'.mono hext hv⟩
+
+theorem declareVar_vext (σ : Store) (x : String) : VExt σ (declareVar σ x) := by
+  intro y i hy
+  unfold declareVar
+  cases h : σ.vcellOf x with
+  | some j => simpa using hy
+  | none =>
+    have hne : (y == x) = false := by
+      cases hyx : (y == x) with
+      | false => rfl
+      | true => simp only [beq_iff_eq] at hyx; subst hyx; rw [h] at hy; cases hy
+    simp only [Store.vcellOf, List.lookup_cons, hne]
+    exact hy
+
+theorem declareVar_ext (σ : Store) (x : String) : Ext σ (declareVar σ x) := by
+  intro f i hf
+  unfold declareVar
+  split <;> exact hf
+
+theorem declareVar_rel {Φ : FunTable} {σ : Store} (h : Rel Φ σ) (x : String) : Rel Φ (declareVar σ x) := by
+  refine h.transfer ?_ ?_ (declareVar_vext σ x) <;> (unfold declareVar; split <;> rfl)
+
+/-- the cells of the variable names after a new name `x` got the next free cell -/
+theorem vcellOf_push_cases {σ : Store} {x : String} {c : Option Val} {y : String} {i : Nat}
+    (hy : Store.vcellOf { σ with vnames := (x, σ.vcells.length) :: σ.vnames, vcells := σ.vcells ++ [c] } y = some i) :
+    (y = x ∧ i = σ.vcells.length) ∨ (y ≠ x ∧ σ.vcellOf y = some i) := by
+  by_cases hyx : y = x
+  · subst hyx
+    left
+    simp [Store.vcellOf, List.lookup] at hy
+    exact ⟨rfl, hy.symm⟩
+  · right
+    have : (y == x) = false := by simpa using hyx
+    simp only [Store.vcellOf, List.lookup_cons, this] at hy
+    exact ⟨hyx, hy⟩
+
+/-- a new name with the next free cell holding `c`: the invariant for the globals in which `x` has the
+    content of `c` -/
+theorem push_vrel {G G' : Env} {σ : Store} (h : VRel G σ) {x : String} {c : Option Val} (hx : σ.vcellOf x = none)
+    (hGx : G'.lookup x = (match c with | some v => some v | none => none))
+    (hG : ∀ y, y ≠ x → G'.lookup y = G.lookup y) :
+    VRel G' { σ with vnames := (x, σ.vcells.length) :: σ.vnames, vcells := σ.vcells ++ [c] } := by
+  refine ⟨?_, ?_, ?_, ?_⟩
+  · intro y i hy
+    rcases vcellOf_push_cases hy with ⟨_, hi⟩ | ⟨_, hold⟩
+    · simp [hi]
+    · have := h.bound y i hold
+      simp; omega
+  · intro y₁ y₂ i h₁ h₂
+    rcases vcellOf_push_cases h₁ with ⟨e₁, hi₁⟩ | ⟨_, o₁⟩ <;> rcases vcellOf_push_cases h₂ with ⟨e₂, hi₂⟩ | ⟨_, o₂⟩
+    · rw [e₁, e₂]
+    · have := h.bound y₂ i o₂; omega
+    · have := h.bound y₁ i o₁; omega
+    · exact h.inj y₁ y₂ i o₁ o₂
+  · intro y i hy
+    rcases vcellOf_push_cases hy with ⟨e₁, hi⟩ | ⟨hyx, hold⟩
+    · subst e₁
+      rw [hGx, hi]
+      cases c <;> simp [Store.vcellVal]
+    · have hb := h.bound y i hold
+      rw [hG y hyx]
+      simp only [Store.vcellVal, List.getElem?_append_left hb]
+      exact h.vals y i hold
+  · intro y hy
+    by_cases hyx : y = x
+    · subst hyx
+      simp [Store.vcellOf, List.lookup] at hy
+    · have hne : (y == x) = false := by simpa using hyx
+      simp only [Store.vcellOf, List.lookup_cons, hne] at hy
+      rw [hG y hyx]
+      exact h.undefd y hy
+
+/-- a fresh unbound cell for an unknown name does not change the values -/
+theorem declareVar_vrel {G : Env} {σ : Store} (h : VRel G σ) (x : String) : VRel G (declareVar σ x) := by
+  unfold declareVar
+  cases hx : σ.vcellOf x with
+  | some j => simpa using h
+  | none => exact push_vrel h hx (h.undefd x hx) (fun _ _ => rfl)
+
+theorem setVar_ext (σ : Store) (x : String) (v : Val) : Ext σ (setVar σ x v) := by
+  intro f i hf
+  unfold setVar
+  split <;> exact hf
+
+theorem setVar_vext (σ : Store) (x : String) (v : Val) : VExt σ (setVar σ x v) := by
+  intro y i hy
+  unfold setVar
+  cases h : σ.vcellOf x with
+  | some j => exact hy
+  | none =>
+    have hne : (y == x) = false := by
+      cases hyx : (y == x) with
+      | false => rfl
+      | true => simp only [beq_iff_eq] at hyx; subst hyx; rw [h] at hy; cases hy
+    simp only [Store.vcellOf, List.lookup_cons, hne]
+    exact hy
+
+theorem setVar_rel {Φ : FunTable} {σ : Store} (h : Rel Φ σ) (x : String) (v : Val) : Rel Φ (setVar σ x v) := by
+  refine h.transfer ?_ ?_ (setVar_vext σ x v) <;> (unfold setVar; split <;> rfl)
+
+/-- `Package.Set` re-establishes the invariant for the globals in which `x` has its new value: the
+    value is stored in the cell the name has, every other cell is untouched -/
+theorem setVar_vrel {G : Env} {σ : Store} (h : VRel G σ) (x : String) (v : Val) :
+    VRel ((x, v) :: G) (setVar σ x v) := by
+  unfold setVar
+  cases hx : σ.vcellOf x with
+  | some j =>
+    simp only
+    have hj := h.bound x j hx
+    refine ⟨?_, h.inj, ?_, ?_⟩
+    · intro y i hy
+      have := h.bound y i hy
+      simpa using this
+    · intro y i hy
+      change σ.vcellOf y = some i at hy
+      by_cases hyx : y = x
+      · subst hyx
+        rw [hx] at hy; cases hy
+        simp [Store.vcellVal, hj, List.lookup]
+      · have hne : (y == x) = false := by simpa using hyx
+        have hji : j ≠ i := fun hij => hyx (h.inj y x i hy (hij ▸ hx))
+        simp only [List.lookup_cons, hne, Store.vcellVal, List.getElem?_set_ne hji]
+        exact h.vals y i hy
+    · intro y hy
+      change σ.vcellOf y = none at hy
+      have hyx : y ≠ x := fun e => by subst e; rw [hx] at hy; cases hy
+      have hne : (y == x) = false := by simpa using hyx
+      simp only [List.lookup_cons, hne]
+      exact h.undefd y hy
+  | none =>
+    refine push_vrel h hx (by simp [List.lookup]) ?_
+    intro y hyx
+    have hne : (y == x) = false := by simpa using hyx
+    simp only [List.lookup_cons, hne]
+
+/-- what `Lambda.Compile` produces for a definition -/
+theorem compileBody_spec {Φ : FunTable} {G : Env} {σ : Store} (hrel : Rel Φ σ) (hvrel : VRel G σ) (lam : Lam) :
+    Rel Φ (compileBody σ lam).2 ∧ VRel G (compileBody σ lam).2 ∧ Ext σ (compileBody σ lam).2 ∧
+      VExt σ (compileBody σ lam).2 ∧ BodyOK (compileBody σ lam).2 lam (compileBody σ lam).1 := by
+  have hcomp : compileBody σ lam = compile σ lam.body →
+      Rel Φ (compileBody σ lam).2 ∧ VRel G (compileBody σ lam).2 ∧ Ext σ (compileBody σ lam).2 ∧
+      VExt σ (compileBody σ lam).2 ∧ BodyOK (compileBody σ lam).2 lam (compileBody σ lam).1 := by
+    intro h
+    rw [h]
+    exact ⟨compile_rel hrel _, compile_vrel hvrel _, compile_ext σ _, compile_vext σ _, .plain (compile_compiled σ _)⟩
+  cases hb : lam.body with
+  | var x =>
+    have hvar : ∀ σ', Compiled σ' lam.body (.var x) := by intro σ'; rw [hb]; exact .var x
+    unfold compileBody
+    rw [hb]
+    simp only
+    split
+    · exact ⟨hrel, hvrel, Ext.refl σ, VExt.refl σ, .plain (hvar σ)⟩
+    · next hloc =>
+      split
+      · exact ⟨hrel, hvrel, Ext.refl σ, VExt.refl σ, .plain (hvar σ)⟩
+      · next hnone =>
+        refine ⟨declareVar_rel hrel x, declareVar_vrel hvrel x, declareVar_ext σ x, declareVar_vext σ x, ?_⟩
+        refine .gref hb (by simpa using hloc) ?_
+        unfold declareVar
+        rw [hnone]
+        simp [Store.vcellOf, List.lookup]
+  | const k => exact hcomp (by unfold compileBody; rw [hb])
+  | kw k => exact hcomp (by unfold compileBody; rw [hb])
+  | prim op a b => exact hcomp (by unfold compileBody; rw [hb])
+  | ite c t e => exact hcomp (by unfold compileBody; rw [hb])
+  | let1 x v b => exact hcomp (by unfold compileBody; rw [hb])
+  | call f args => exact hcomp (by unfold compileBody; rw [hb])
+
+theorem define_spec {Φ : FunTable} {G : Env} {σ : Store} (hrel : Rel Φ σ) (hvrel : VRel G σ) (f : String) (lam : Lam) :
+    Rel ((f, lam) :: Φ) (define σ f lam) ∧ VRel G (define σ f lam) ∧ Ext σ (define σ f lam) ∧ VExt σ (define σ f lam) := by
+  obtain ⟨hr₁, hv₁, he₁, hve₁, hb₁⟩ := compileBody_spec hrel hvrel lam
+  have hr₂ : Rel Φ (declare (compileBody σ lam).2 f) := declare_rel hr₁ f
+  have hv₂ : VRel G (declare (compileBody σ lam).2 f) := hv₁.transfer (declare_vars _ f).1 (declare_vars _ f).2
+  have he₂ : Ext σ (declare (compileBody σ lam).2 f) := he₁.trans (declare_ext _ f)
+  have hve₂ : VExt σ (declare (compileBody σ lam).2 f) := hve₁.trans (declare_vext _ f)
+  have hb₂ : BodyOK (declare (compileBody σ lam).2 f) lam (compileBody σ lam).1 := hb₁.mono (declare_ext _ f) (declare_vext _ f)
+  obtain ⟨i, hi⟩ := cellOf_declare_self (compileBody σ lam).2 f
   unfold define
   simp only
   split
   · next j hj =>
-    exact patch_rel hr₂ hj (embedAux_compiled _ lam.aux) hc₂
+    exact ⟨patch_rel hr₂ hj (embedAux_compiled _ lam.aux) hb₂, hv₂.transfer rfl rfl, he₂, hve₂⟩
   · next hnone => rw [hnone] at hi; cases hi
+
+theorem compileBody_exts (σ : Store) (lam : Lam) : Ext σ (compileBody σ lam).2 ∧ VExt σ (compileBody σ lam).2 := by
+  unfold compileBody
+  split
+  · next x _ =>
+    split
+    · exact ⟨Ext.refl σ, VExt.refl σ⟩
+    · split
+      · exact ⟨Ext.refl σ, VExt.refl σ⟩
+      · exact ⟨declareVar_ext σ x, declareVar_vext σ x⟩
+  · exact ⟨compile_ext σ _, compile_vext σ _⟩
+
+theorem define_exts (σ : Store) (f : String) (lam : Lam) : Ext σ (define σ f lam) ∧ VExt σ (define σ f lam) := by
+  have h₁ : Ext σ (declare (compileBody σ lam).2 f) := (compileBody_exts σ lam).1.trans (declare_ext _ f)
+  have h₂ : VExt σ (declare (compileBody σ lam).2 f) := (compileBody_exts σ lam).2.trans (declare_vext _ f)
+  unfold define
+  simp only
+  split
+  · exact ⟨h₁, h₂⟩
+  · exact ⟨h₁, h₂⟩
+
+theorem define_ext (σ : Store) (f : String) (lam : Lam) : Ext σ (define σ f lam) := (define_exts σ f lam).1
+theorem define_vext (σ : Store) (f : String) (lam : Lam) : VExt σ (define σ f lam) := (define_exts σ f lam).2
+
+/-- `defun` re-establishes the invariant for the table in which `f` has its new definition -/
+theorem define_rel {Φ : FunTable} {G : Env} {σ : Store} (hrel : Rel Φ σ) (hvrel : VRel G σ) (f : String) (lam : Lam) :
+    Rel ((f, lam) :: Φ) (define σ f lam) := (define_spec hrel hvrel f lam).1
+
+theorem define_vrel {Φ : FunTable} {G : Env} {σ : Store} (hrel : Rel Φ σ) (hvrel : VRel G σ) (f : String) (lam : Lam) :
+    VRel G (define σ f lam) := (define_spec hrel hvrel f lam).2.1
 
 /-! ### `fmakunbound` -/
 
@@ -436,6 +807,15 @@ theorem undefine_ext (σ : Store) (f : String) : Ext σ (undefine σ f) := by
   · exact fun _ _ h => h
   · exact Ext.refl σ
 
+theorem undefine_vrel {G : Env} {σ : Store} (h : VRel G σ) (f : String) : VRel G (undefine σ f) := by
+  refine h.transfer ?_ ?_ <;> (unfold undefine; split <;> rfl)
+
+theorem undefine_vext (σ : Store) (f : String) : VExt σ (undefine σ f) := by
+  unfold undefine
+  split
+  · exact fun _ _ h => h
+  · exact VExt.refl σ
+
 /-- `fmakunbound` re-establishes the invariant for the table without `f`: the cell of `f` is a
     placeholder again, every other cell is untouched -/
 theorem undefine_rel {Φ : FunTable} {σ : Store} (hrel : Rel Φ σ) (f : String) :
@@ -443,7 +823,8 @@ theorem undefine_rel {Φ : FunTable} {σ : Store} (hrel : Rel Φ σ) (f : String
   unfold undefine
   split
   · next i hf =>
-    have hext : Ext σ ⟨σ.names, σ.cells.set i none⟩ := fun _ _ h => h
+    have hext : Ext σ { σ with cells := σ.cells.set i none } := fun _ _ h => h
+    have hvext : VExt σ { σ with cells := σ.cells.set i none } := fun _ _ h => h
     have hi := hrel.wf.bound f i hf
     refine ⟨⟨?_, ?_⟩, ?_, ?_⟩
     · intro g j hg
@@ -472,7 +853,7 @@ theorem undefine_rel {Φ : FunTable} {σ : Store} (hrel : Rel Φ σ) (f : String
         | some lam' =>
           rw [hl] at hm
           obtain ⟨caux', cb', h₁, h₂, h₃⟩ := hm
-          exact ⟨caux', cb', h₁, h₂.mono hext, h₃.mono hext⟩
+          exact ⟨caux', cb', h₁, h₂.mono hext, h₃.mono hext hvext⟩
   · next hnone =>
     -- the name never had a cell: it is undefined in the table as well
     refine ⟨hrel.wf, ?_, ?_⟩
@@ -517,7 +898,8 @@ theorem compiledList_set {σ : Store} : ∀ {es : List Expr} {cs : List Code}, C
 /-! ## the direct semantics depends on the table only through `lookup` -/
 
 theorem eval_congr {Φ Φ' : FunTable} (h : ∀ f, Φ.lookup f = Φ'.lookup f) :
-    ∀ (n : Nat) (env : Env) (e : Expr), eval Φ n env e = eval Φ' n env e := by
+    ∀ (G : Env) (n : Nat) (env : Env) (e : Expr), eval Φ G n env e = eval Φ' G n env e := by
+  intro G
   intro n
   induction n with
   | zero => intros; simp [eval]
@@ -532,16 +914,16 @@ theorem evalBinds_congr {α β : Type} {ev₁ : α → Out} {ev₂ : β → Out}
       simp only [evalBinds, List.map_cons, h a, evalBinds_congr g h rest]
 
 theorem run_congr (fuel : Nat) : ∀ {Φ Φ' : FunTable}, (∀ f, Φ.lookup f = Φ'.lookup f) →
-    ∀ (hist : List Expr) (forms : List Form), run fuel Φ hist forms = run fuel Φ' hist forms := by
-  intro Φ Φ' h hist forms
-  induction forms generalizing Φ Φ' hist with
+    ∀ (G : Env) (hist : List Expr) (forms : List Form), run fuel Φ G hist forms = run fuel Φ' G hist forms := by
+  intro Φ Φ' h G hist forms
+  induction forms generalizing Φ Φ' G hist with
   | nil => simp [run]
   | cons form rest ih =>
     cases form with
     | defun f binds lam =>
-      have hb : evalBinds (fun e => eval Φ fuel [] e) binds = evalBinds (fun e => eval Φ' fuel [] e) binds := by
-        have := evalBinds_congr (ev₁ := fun e => eval Φ fuel [] e) (ev₂ := fun e => eval Φ' fuel [] e) id
-          (fun a => eval_congr h fuel [] a) binds
+      have hb : evalBinds (fun e => eval Φ G fuel [] e) binds = evalBinds (fun e => eval Φ' G fuel [] e) binds := by
+        have := evalBinds_congr (ev₁ := fun e => eval Φ G fuel [] e) (ev₂ := fun e => eval Φ' G fuel [] e) id
+          (fun a => eval_congr h G fuel [] a) binds
         simpa using this
       simp only [run, hb]
       split
@@ -555,8 +937,15 @@ theorem run_congr (fuel : Nat) : ∀ {Φ Φ' : FunTable}, (∀ f, Φ.lookup f = 
       rw [ih (Φ := undefTable Φ (norm f)) (Φ' := undefTable Φ' (norm f))]
       intro g
       simp only [lookup_undefTable, h g]
-    | expr e => simp only [run, eval_congr h, ih h]
-    | again j => simp only [run, eval_congr h, ih h]
+    | setvar k x e =>
+      simp only [run, eval_congr h G]
+      split
+      · rw [ih h]
+      · split
+        · rw [ih h]
+        · rw [ih h]
+    | expr e => simp only [run, eval_congr h G, ih h]
+    | again j => simp only [run, eval_congr h G, ih h]
 
 /-- the table entry of a top-level definition: the normalised name, no captured variables -/
 def defEntry (d : String × Lam) : String × Lam := (norm d.1, { d.2 with env := [] })
@@ -566,14 +955,14 @@ def addDefs (Φ₀ : FunTable) (defs : List (String × Lam)) : FunTable := (defs
 
 theorem run_defs_aux (fuel : Nat) (toForm : String × Lam → Form)
     (htf : ∀ d, toForm d = .defun d.1 [] d.2) :
-    ∀ (defs : List (String × Lam)) (Φ₀ : FunTable) (hist : List Expr) (body : List Form),
-    run fuel Φ₀ hist (defs.map toForm ++ body)
-      = defs.map (fun d => Out.val (.sym (norm d.1))) ++ run fuel (addDefs Φ₀ defs) hist body := by
+    ∀ (defs : List (String × Lam)) (Φ₀ : FunTable) (G : Env) (hist : List Expr) (body : List Form),
+    run fuel Φ₀ G hist (defs.map toForm ++ body)
+      = defs.map (fun d => Out.val (.sym (norm d.1))) ++ run fuel (addDefs Φ₀ defs) G hist body := by
   intro defs
   induction defs with
   | nil => intros; simp [addDefs]
   | cons d ds ih =>
-    intro Φ₀ hist body
+    intro Φ₀ G hist body
     simp only [List.map_cons, List.cons_append, htf d, run, evalBinds]
     rw [ih]
     simp [addDefs, defEntry]
